@@ -10,7 +10,7 @@ From CGV Require Import Base.PyBase Base.PyVal Gen.FragGen Dialect.DialectImpl F
      Frag.StripFacts Frag.FragProofs Frag.FragTextX Frag.FragProofsX Frag.FragStages Frag.FragSmall Frag.RingProofs
      Gen.SmilesGen Frag.SmilesParse Frag.SmilesSpec Frag.SmilesProofs Frag.SmilesIndex Frag.SmilesRelabel Frag.SmilesPerm
      Frag.Template Frag.TemplateProofs Frag.TemplateFinal Frag.TemplateGraph Frag.TemplateCompose Frag.SmilesReverse Frag.SmilesPermR
-     Frag.SmilesReroot Frag.SmilesRewrite Frag.SmilesPermX Frag.TemplateChiral Frag.TemplateChiralProofs.
+     Frag.FragTextW Frag.FragProofsW Frag.SmilesReroot Frag.SmilesRewrite Frag.SmilesPermX Frag.TemplateChiral Frag.TemplateChiralProofs.
 From CGV Require Import Base.NxGraph Compose.CutModel Compose.CutSpecDefs.
 Local Open Scope nat_scope.
 Import ListNotations.
@@ -35,6 +35,22 @@ Theorem C13_partial_branch_symbol : forall fo toks dc, wfx toks dc = true -> exc
 Proof. exact strip_correct_x. Qed.
 Theorem C13_wf_in_wfx : forall toks dc, wf toks dc = true -> wfx toks dc = true.
 Proof. exact wf_wfx. Qed.
+(** and on the domain extended once more by the SMILES wildcard atom `*` written without brackets ([wfw] =
+    [wfx] with [tok_okx]: pysmiles' organic subset contains `*`; in the code it is one more character of the
+    catch-all atom branch, counted as an atom; `[*]` is a bracket atom in every domain).  The per-run oracle
+    judges on [wfw]; [FragTextX.wfx_items] is unchanged (the writer component computes with it) *)
+Theorem C13_partial_wildcard : forall fo toks dc, wfw toks dc = true -> excluded toks dc = false ->
+  strip_bonding_descriptors fo (render (decorate toks dc)) = strip_spec fo toks dc.
+Proof. exact strip_correct_w. Qed.
+Theorem C13_wfx_in_wfw : forall toks dc, wfx toks dc = true -> wfw toks dc = true.
+Proof. exact wfx_wfw. Qed.
+Example C13_wildcard_nonvacuous :
+  wfx st_toks1 st_dc1 = false /\ wfw st_toks1 st_dc1 = true /\ excluded st_toks1 st_dc1 = false /\
+  to_string (render (decorate st_toks1 st_dc1)) = "[$]C*C[$]"%string /\
+  (exists a, strip_spec (fo_of_table []) st_toks1 st_dc1 = Ok (S "C*C", [(0, [S "$1"]); (2, [S "$1"])], [], a)) /\
+  wfw st_toks2 st_dc2 = true /\ to_string (render (decorate st_toks2 st_dc2)) = "*[$a]C(*=[>])Cl[<x]"%string /\
+  (exists a, strip_spec (fo_of_table []) st_toks2 st_dc2 = Ok (S "*C(*)Cl", [(0, [S "$a1"]); (2, [S ">2"]); (3, [S "<x1"])], [], a)).
+Proof. exact wildcard_example. Qed.
 Example C13_branch_symbol_nonvacuous :
   wf bx_toks bx_dc = false /\ wfx bx_toks bx_dc = true /\ excluded bx_toks bx_dc = false /\
   to_string (render (decorate bx_toks bx_dc)) = "[$][#A]=([#B]#[>])-([#C])[#D]"%string /\
@@ -611,3 +627,4 @@ Print Assumptions C13_template_final_rs_of_render.
 Print Assumptions C13_template_is_template_rs_partial.
 Print Assumptions C13_template_rs_node.
 Print Assumptions C13_chiral_tuple_spec.
+Print Assumptions C13_partial_wildcard.
